@@ -78,7 +78,7 @@ def size_options(topo, nx, ny, G):
     return o
 
 
-def tokamak_arrays(geometry, nR=65, nZ=65, mirror=False, psi_sign=1.0, psi_offset=0.0, psi1d_rmax=None):
+def tokamak_arrays(geometry, nR=65, nZ=65, mirror=False, psi_sign=1.0, psi_offset=0.0, psi1d_rmax=None, psi_scale=1.0):
     r1d = np.linspace(1.0, 2.0, nR)
     z1d = np.linspace(-0.7, 0.7, nZ)
     r2d, z2d = np.meshgrid(r1d, z1d, indexing="ij")
@@ -88,7 +88,7 @@ def tokamak_arrays(geometry, nR=65, nZ=65, mirror=False, psi_sign=1.0, psi_offse
     else:
         psi2d = f(r2d, z2d)
     psi1d = f(np.linspace(R0, 1.2 * R0 if psi1d_rmax is None else psi1d_rmax, nR), 0.0)
-    return r1d, z1d, psi_sign * psi2d + psi_offset, psi_sign * psi1d + psi_offset
+    return r1d, z1d, psi_scale * psi_sign * psi2d + psi_offset, psi_scale * psi_sign * psi1d + psi_offset
 
 
 def default_wall(inset=0.2, slanted=False, mirror=False, clockwise=False):
@@ -110,19 +110,20 @@ def quiet():
 
 
 def make_tokamak(geometry, options, *, fpol=None, pressure=None, wall=None, nR=65, nZ=65, mirror=False,
-                 psi_sign=1.0, make_regions=True, nonorth=None, psi1d_rmax=None):
+                 psi_sign=1.0, make_regions=True, nonorth=None, psi1d_rmax=None, psi_scale=1.0):
     from hypnotoad.cases import tokamak
 
-    r1d, z1d, psi2d, psi1d = tokamak_arrays(geometry, nR, nZ, mirror=mirror, psi_sign=psi_sign, psi1d_rmax=psi1d_rmax)
+    r1d, z1d, psi2d, psi1d = tokamak_arrays(geometry, nR, nZ, mirror=mirror, psi_sign=psi_sign, psi1d_rmax=psi1d_rmax, psi_scale=psi_scale)
+    psi1d_unscaled = psi1d / (psi_scale * psi_sign)
     if wall is None:
         wall = default_wall(mirror=mirror)
     kw = {}
     if fpol is None:
         fpol1d = []
     else:
-        fpol1d = fpol(psi1d)
+        fpol1d = fpol(psi1d_unscaled * psi_sign)
     if pressure is not None:
-        kw["pressure"] = pressure(psi1d)
+        kw["pressure"] = pressure(psi1d_unscaled * psi_sign)
     arrays = {"r1d": r1d, "z1d": z1d, "psi2d": psi2d, "psi1d": psi1d, "fpol1d": fpol1d}
     with quiet():
         eq = tokamak.TokamakEquilibrium(r1d, z1d, psi2d, psi1d, fpol1d, wall=wall, settings=dict(options),
